@@ -88,6 +88,8 @@ def check_roundtrip(np, sparse, layout, case, via):
         for l in dst.lines_iterator():
             l.logits, l.characters, l.logit_coords = sent_m.copy(), ['s', 'e', 'n'], [7, 9]
             sentinels[l.id] = (l.logits, l.characters, l.logit_coords)
+            l.get_dense_logits()        # history: the target line was already densified (decoded / exported) with its old logits
+            l.get_full_logprobs()
         dst.load_logits(data)
         saved = {lid: f for lid, f in zip(ids, fields)}
         for l in dst.lines_iterator():
@@ -95,6 +97,11 @@ def check_roundtrip(np, sparse, layout, case, via):
                 mi, ch, co = saved[l.id]
                 if not same_matrix(l.logits, mats[mi]) or l.characters != list(ch) or l.logit_coords != list(co):
                     bad.append(('restores-identical', 'line %r restored as %r / %r / %r' % (l.id, None if l.logits is None else l.logits.toarray().tolist(), l.characters, l.logit_coords)))
+                elif mats[mi].shape[0] > 0:
+                    arr = mats[mi].toarray()
+                    d = l.get_dense_logits()
+                    if d.shape != arr.shape or not np.array_equal(d[arr != 0], arr[arr != 0]) or not np.all(d[arr == 0] == -80):
+                        bad.append(('dense-reflects-loaded', 'line %r: dense reconstruction after load_logits is %r, loaded matrix %r' % (l.id, d.tolist(), arr.tolist())))
             else:
                 s = sentinels[l.id]
                 if l.logits is not s[0] or l.characters is not s[1] or l.logit_coords is not s[2]:
